@@ -5,6 +5,9 @@ Every expression is given a sort
 * ``Const``                - does not depend on the utilities,
 * ``Hom(d)``               - a function of y = exp(V) that is positively homogeneous of degree d,
 * ``LogHom(d)``            - the logarithm of one,
+* ``Unknown``              - the typing cannot tell (a name whose definition it does not see, a call of a function it does not
+                             know): everything computed from it is Unknown too; an Unknown is never a degree clash,
+* ``Map``                  - the dictionary of utilities / of availabilities itself (the parameter or an alias of it),
 
 where ``d`` is a sympy expression in the symbols ``mu`` (scale of the model)
 and ``mu_m`` (scale of the current nest).  Sums need equal degrees, products
@@ -37,12 +40,54 @@ class TypeErr(Exception):
     pass
 
 
+def terms_equal(a: sp.Expr | None, b: sp.Expr | None) -> bool | None:
+    """True: the two terms are the same function (sympy normal form, or equal values at three generic points when sympy does
+    not find the normal form); False: they take different values at a generic point; None: cannot tell.  SUM / CSUM / logzero
+    are uninterpreted: equal arguments give equal values, logzero is not log."""
+    import random
+
+    if a is None or b is None:
+        return None
+    try:
+        d = sp.simplify(a - b)
+        if d == 0:
+            return True
+        d = sp.simplify(sp.expand(sp.expand_log(a - b, force=True)))
+        if d == 0:
+            return True
+    except Exception:  # noqa
+        pass
+    try:
+        syms = sorted((a.free_symbols | b.free_symbols), key=lambda x: x.name)
+        outcome = []
+        for seed in (11, 23, 47):
+            rnd = random.Random(seed)
+            vals = {x: sp.Float(rnd.uniform(0.6, 1.9)) for x in syms}
+
+            def conc(e):
+                e = e.replace(SUM, lambda x: 1.7 * x + sp.Float(0.31))
+                e = e.replace(CSUM, lambda x: 2.3 * x + sp.Float(0.17))
+                e = e.replace(LOGZERO, lambda x: sp.log(x) + sp.Float(0.37))
+                return complex(sp.N(e.subs(vals)))
+
+            x, y = conc(a), conc(b)
+            outcome.append(abs(x - y) <= 1e-9 * max(1.0, abs(x), abs(y)))
+        if all(outcome):
+            return True
+        if not any(outcome):
+            return False
+    except Exception:  # noqa
+        return None
+    return None
+
+
 @dataclass
 class AV:
-    kind: str  # Const | Hom | LogHom
+    kind: str  # Const | Hom | LogHom | Unknown | Map
     deg: sp.Expr | None = None  # for Const: its value when known
     term: sp.Expr | None = None
     nullable: bool = False  # carries a user-supplied factor (alpha) that may be exactly zero
+    ref: str = ''  # for Map: 'util' | 'avail'
 
     def __repr__(self):
         return f'{self.kind}({sp.simplify(self.deg) if self.deg is not None else ""})'
@@ -60,11 +105,22 @@ def L(d, term=None):
     return AV('LogHom', sp.simplify(d), term)
 
 
+def U() -> AV:
+    """a value the typing knows nothing about"""
+    return AV('Unknown')
+
+
+def is_unknown(*vals: 'AV | None') -> bool:
+    return any(v is not None and v.kind in ('Unknown', 'Map') for v in vals)
+
+
 def as_log(a: AV) -> AV:
     if a.kind == 'LogHom':
         return a
     if a.kind == 'Const':
         return L(0, a.term)
+    if a.kind in ('Unknown', 'Map'):
+        raise TypeErr(f'{a} is not typed')
     raise TypeErr(f'{a} used additively among log-terms')
 
 
@@ -73,6 +129,8 @@ def as_hom(a: AV) -> AV:
         return a
     if a.kind == 'Const':
         return H(0, a.term)
+    if a.kind in ('Unknown', 'Map'):
+        raise TypeErr(f'{a} is not typed')
     raise TypeErr(f'{a} used as a function of y')
 
 
@@ -83,12 +141,21 @@ class Binding:
     value: AV
     text: str = ''
     loops: tuple = ()
+    accumulates: bool = False  # stored with append / += (the number of executions matters), not by assignment to a key
 
 
 def join(vals: list[AV], ctx: str) -> AV | None:
     vals = [v for v in vals if v is not None]
     if not vals:
         return None
+    unknown = is_unknown(*vals)
+    vals = [v for v in vals if not is_unknown(v)]
+    if not vals:
+        return U()
+    if unknown:
+        # a clash among the typed entries stands; otherwise the join of typed and untyped entries is untyped
+        join(vals, ctx)
+        return U()
     if all(v.kind == 'Const' for v in vals):
         out = C(term=vals[0].term)
         out.nullable = all(v.nullable for v in vals)
@@ -106,6 +173,51 @@ def join(vals: list[AV], ctx: str) -> AV | None:
     return out
 
 
+def _is_empty_literal(e: ast.AST) -> bool:
+    if isinstance(e, (ast.Tuple, ast.List, ast.Set)) and not e.elts:
+        return True
+    if isinstance(e, ast.Dict) and not e.keys:
+        return True
+    return isinstance(e, ast.Call) and isinstance(e.func, ast.Name) and e.func.id in ('tuple', 'list', 'dict', 'set', 'frozenset') and not e.args and not e.keywords
+
+
+def none_test(t: ast.AST) -> tuple[str, bool] | None:
+    """(text of X, True when the test says X is None) for `X is None`, `X is not None`, `None is X`, `not X is None`, ..."""
+    if isinstance(t, ast.UnaryOp) and isinstance(t.op, ast.Not):
+        r = none_test(t.operand)
+        return (r[0], not r[1]) if r else None
+    if isinstance(t, ast.Compare) and len(t.ops) == 1 and isinstance(t.ops[0], (ast.Is, ast.IsNot, ast.Eq, ast.NotEq)):
+        a, b = t.left, t.comparators[0]
+        if isinstance(a, ast.Constant) and a.value is None:
+            a, b = b, a
+        if isinstance(b, ast.Constant) and b.value is None:
+            return unparse(a), isinstance(t.ops[0], (ast.Is, ast.Eq))
+    return None
+
+
+def iterated(it: ast.expr) -> ast.expr:
+    """the collection a loop runs over, without the wrappers that yield the same elements the same number of times:
+    iter(X), list(X), tuple(X), sorted(X), reversed(X) iterate X; `X or ()` iterates X when X is not None (and nothing when X
+    is None or empty, which is what iterating an empty X does); `X if X is not None else ()` likewise.  Anything else is left
+    as it is written (and will be classified 'unknown' by the rules unless it is one of the collections they know)."""
+    while True:
+        if isinstance(it, ast.Call) and isinstance(it.func, ast.Name) and it.func.id in ('iter', 'list', 'tuple', 'sorted', 'reversed') and len(it.args) == 1 \
+                and not it.keywords and not isinstance(it.args[0], ast.Starred):
+            it = it.args[0]
+            continue
+        if isinstance(it, ast.BoolOp) and isinstance(it.op, ast.Or) and len(it.values) == 2 and _is_empty_literal(it.values[1]):
+            it = it.values[0]
+            continue
+        if isinstance(it, ast.IfExp):
+            r = none_test(it.test)
+            if r is not None:
+                x, empty = (it.orelse, it.body) if r[1] else (it.body, it.orelse)
+                if unparse(x) == r[0] and _is_empty_literal(empty):
+                    it = x
+                    continue
+        return it
+
+
 class Interp:
     def __init__(self, f: FuncInfo):
         self.f = f
@@ -113,6 +225,10 @@ class Interp:
         self.util = ps[0] if ps else 'util'
         self.avail = ps[1] if len(ps) > 1 else 'availability'
         self.mu = 'mu' if 'mu' in ps else None
+        self.nests = 'nests' if 'nests' in ps else (ps[2] if len(ps) > 2 else 'nests')
+        #: value of every list comprehension evaluated, by identity of the node (and by position/text as a fallback)
+        self.comp_values: dict = {}
+        self._helper_depth = 0
         self.env: dict[str, AV | None] = {}
         self.bindings: dict[str, list[Binding]] = {}
         self.findings: list[tuple[int, str]] = []
@@ -122,13 +238,39 @@ class Interp:
         self.log_of_nullable: list[tuple[int, str]] = []
 
     def _loop_name(self, it: ast.expr) -> str:
-        """the iterable of a loop, with single-definition locals of the function looked through (`alone = nests.alone`)"""
+        """the iterable of a loop, with single-definition locals of the function looked through (`alone = nests.alone`) and the
+        wrappers that iterate the same elements removed (see iterated())"""
         from .core import inline_locals
 
+        raw = iterated(it)
+        base = raw.func.value if isinstance(raw, ast.Call) and isinstance(raw.func, ast.Attribute) and raw.func.attr in ('items', 'keys', 'values') and not raw.args else raw
+        if isinstance(base, ast.Name) and base.id in self.bindings:
+            # a dictionary / list the function has filled: named, not replaced by its (empty) initial value
+            return unparse(raw)
         try:
-            return unparse(inline_locals(self.f.node, it))
+            return unparse(iterated(inline_locals(self.f.node, it)))
         except Exception:  # noqa
-            return unparse(it)
+            return unparse(iterated(it))
+
+    def loop_class(self, text: str) -> str:
+        """what a loop (text given by _loop_name) runs over: 'nests' (the nests), 'alone' (the alternatives in no nest),
+        'members' (the alternatives of one nest), 'entries' (the items of a local dictionary the function has filled), or
+        'unknown' - the typing cannot tell how many times, and for which alternatives, the body runs"""
+        import re
+
+        if text == self.nests:
+            return 'nests'
+        if text == f'{self.nests}.alone':
+            return 'alone'
+        if re.fullmatch(r'\w+\.(list_of_alternatives|dict_of_alpha|dict_of_alpha\.(items|keys)\(\))', text):
+            return 'members'
+        m = re.fullmatch(r'(\w+)(\.(items|keys|values)\(\))?', text)
+        if m and m.group(1) in self.bindings:
+            return 'entries'
+        return 'unknown'
+
+    def loop_classes(self, loops) -> tuple:
+        return tuple(self.loop_class(x) for x in loops)
 
     # ---- expressions
     def ev(self, n: ast.AST) -> AV | None:
@@ -137,32 +279,42 @@ class Interp:
                 v = sp.nsimplify(num(n.value))
                 return C(v, v)
             return C()
+        if isinstance(n, ast.JoinedStr):
+            return C()
         if isinstance(n, ast.Name):
-            if n.id == self.mu:
+            if n.id == self.mu and n.id not in self.env:
                 return C(MU, MU)
             if n.id in self.env:
                 return self.env[n.id]
-            return C()
+            if n.id == self.util:
+                return AV('Map', ref='util')
+            if n.id == self.avail:
+                return AV('Map', ref='avail')
+            # a constant of the module
+            mv = self.f.module.assigns.get(n.id)
+            if mv is not None and isinstance(mv, (ast.Constant, ast.UnaryOp, ast.BinOp)) and not any(isinstance(x, (ast.Name, ast.Call)) for x in ast.walk(mv)):
+                return self.ev(mv)
+            # a name the typing has no definition for: neither a constant nor a function of the utilities
+            return U()
         if isinstance(n, ast.Attribute):
             if n.attr == 'nest_param':
                 return C(MUM, MUM)
-            return C()
+            return U()
         if isinstance(n, ast.Subscript):
-            base = unparse(n.value)
-            if base == self.util:
-                return L(1, V)
-            if base == self.avail:
-                return C(None, A)
-            v = self.env.get(base)
-            return v if v is not None else C()
+            return self._subscript(n)
         if isinstance(n, ast.UnaryOp):
             v = self.ev(n.operand)
+            if is_unknown(v):
+                return U()
             if isinstance(n.op, ast.USub) and v is not None:
                 if v.kind == 'Const':
                     return C(-v.deg if v.deg is not None else None, -v.term if v.term is not None else None)
                 if v.kind == 'LogHom':
                     return L(-v.deg, -v.term if v.term is not None else None)
-            return v
+                return U()
+            if isinstance(n.op, ast.UAdd):
+                return v
+            return U()
         if isinstance(n, ast.Compare):
             return C(None, sp.Symbol('cond'))
         if isinstance(n, ast.BinOp):
@@ -173,7 +325,10 @@ class Interp:
             self._loops.append(self._loop_name(n.generators[0].iter))
             self._bind_target(n.generators[0].target, n.generators[0].iter)
             try:
-                return self.ev(n.elt)
+                v = self.ev(n.elt) if len(n.generators) == 1 and not n.generators[0].ifs else U()
+                self.comp_values[id(n)] = v
+                self.comp_values[(n.lineno, n.col_offset, unparse(n))] = v
+                return v
             finally:
                 self._loops.pop()
         if isinstance(n, ast.DictComp):
@@ -187,19 +342,81 @@ class Interp:
             return join([self.ev(e) for e in n.elts], f'line {n.lineno}') if n.elts else None
         if isinstance(n, ast.Dict):
             return join([self.ev(e) for e in n.values], f'line {n.lineno}') if n.values else None
-        return C()
+        return U()
 
-    def _bind_target(self, target: ast.AST, it: ast.AST) -> None:
-        """loop variables: alpha of a cross-nested nest is a positive constant"""
-        t = unparse(it)
-        if isinstance(target, ast.Tuple) and len(target.elts) == 2 and t.endswith('dict_of_alpha.items()'):
+    def _map_of(self, base: ast.AST) -> str:
+        """'util' / 'avail' when base denotes the dictionary of utilities / availabilities (the parameter, an alias held in
+        the environment, or a single-definition local that resolves to it), else ''"""
+        if isinstance(base, ast.Name):
+            v = self.ev(base)
+            if v is not None and v.kind == 'Map':
+                return v.ref
+            if base.id in self.env:
+                return ''
+        from .core import inline_locals
+
+        try:
+            t = unparse(inline_locals(self.f.node, base))
+        except Exception:  # noqa
+            t = unparse(base)
+        if t == self.util and self.util not in self.env:
+            return 'util'
+        if t == self.avail and self.avail not in self.env:
+            return 'avail'
+        return ''
+
+    def _subscript(self, n: ast.Subscript) -> AV | None:
+        ref = self._map_of(n.value)
+        if ref == 'util':
+            return L(1, V)
+        if ref == 'avail':
+            return C(None, A)
+        base = unparse(n.value)
+        if base in self.env:
+            v = self.env[base]
+            # an element of a container the function has filled: the join of what was stored
+            return v if v is not None else U()
+        if base.endswith('.dict_of_alpha'):
             a = C(None, ALPHA)
             a.nullable = True
-            self.env[unparse(target.elts[1])] = a
-        elif isinstance(target, ast.Tuple) and len(target.elts) == 2 and t.endswith('.items()'):
-            base = unparse(it.func.value) if isinstance(it, ast.Call) and isinstance(it.func, ast.Attribute) else None
-            if base in self.env:
-                self.env[unparse(target.elts[1])] = self.env[base]
+            return a
+        return U()
+
+    def _bind_target(self, target: ast.AST, it: ast.AST) -> None:
+        """loop variables: alpha of a cross-nested nest is a positive constant; the values of a dictionary the function knows"""
+        from .core import inline_locals
+
+        try:
+            # `alphas = m.dict_of_alpha` ... `for i, a in alphas.items()`
+            t = unparse(inline_locals(self.f.node, it))
+        except Exception:  # noqa
+            t = unparse(it)
+        names = [x.id for x in ast.walk(target) if isinstance(x, ast.Name)]
+        for nm in names:
+            # a loop variable hides an earlier local of the same name
+            self.env.pop(nm, None)
+        meth = it.func.attr if isinstance(it, ast.Call) and isinstance(it.func, ast.Attribute) and not it.args and not it.keywords else None
+        val_name = None
+        if isinstance(target, ast.Tuple) and len(target.elts) == 2 and meth == 'items' and isinstance(target.elts[1], ast.Name):
+            val_name = target.elts[1].id
+        elif isinstance(target, ast.Name) and meth == 'values':
+            val_name = target.id
+        if val_name is None:
+            return
+        if t.endswith('dict_of_alpha.items()') or t.endswith('dict_of_alpha.values()'):
+            a = C(None, ALPHA)
+            a.nullable = True
+            self.env[val_name] = a
+            return
+        ref = self._map_of(it.func.value)
+        if ref == 'util':
+            self.env[val_name] = L(1, V)
+        elif ref == 'avail':
+            self.env[val_name] = C(None, A)
+        else:
+            base = unparse(it.func.value)
+            if base in self.env and self.env[base] is not None:
+                self.env[val_name] = self.env[base]
 
     def binop(self, n: ast.BinOp) -> AV:
         out = self._binop(n)
@@ -218,6 +435,8 @@ class Interp:
         op = type(n.op).__name__
         if l is None or r is None:
             raise TypeErr(f'line {n.lineno}: empty operand')
+        if is_unknown(l, r):
+            return U()
         lt, rt = l.term, r.term
         term = None
         if lt is not None and rt is not None:
@@ -261,24 +480,33 @@ class Interp:
 
     def call(self, n: ast.Call) -> AV | None:
         f = (dotted(n.func) or unparse(n.func)).split('.')[-1]
-        if f == 'exp' and n.args:
+        if any(isinstance(x, ast.Starred) for x in n.args) or any(k.arg is None for k in n.keywords):
+            return U()
+        if f == 'exp' and len(n.args) == 1:
             a = self.ev(n.args[0])
+            if a is None or is_unknown(a):
+                return U()
             return H(as_log(a).deg, sp.exp(a.term) if a.term is not None else None)
-        if f in ('log', 'logzero') and n.args:
+        if f in ('log', 'logzero') and len(n.args) == 1:
             a = self.ev(n.args[0])
-            if a is not None and a.nullable:
+            if a is None or is_unknown(a):
+                return U()
+            if a.nullable:
                 self.log_of_nullable.append((n.lineno, f))
             t = (sp.log(a.term) if f == 'log' else LOGZERO(a.term)) if a.term is not None else None
             if a.kind == 'Const':
                 return C(sp.log(a.deg) if a.deg is not None else None, t)
             return L(as_hom(a).deg, t)
-        if f == 'Numeric' and n.args:
+        if f in ('Numeric', 'float', 'int') and len(n.args) == 1 and not n.keywords:
             return self.ev(n.args[0])
-        if f in ('bioMultSum', 'ConditionalSum'):
+        if f in ('bioMultSum', 'ConditionalSum') and (n.args or n.keywords):
             arg = n.args[0] if n.args else n.keywords[0].value
             v = self.ev(arg)
             if v is None:
-                return C()
+                # the sum of a list the typing has seen nothing stored into
+                return U()
+            if is_unknown(v):
+                return U()
             t = (SUM if f == 'bioMultSum' else CSUM)(v.term) if v.term is not None else None
             if v.kind == 'Const':
                 out = C(None, t)
@@ -288,8 +516,77 @@ class Interp:
             return out
         if f == 'ConditionalTermTuple':
             term = next((k.value for k in n.keywords if k.arg == 'term'), n.args[1] if len(n.args) > 1 else None)
-            return self.ev(term) if term is not None else C()
-        return C()
+            return self.ev(term) if term is not None else U()
+        if f == 'len':
+            return C()
+        # a function of the same module whose body is a single returned expression (single-definition locals allowed): its
+        # value is that expression with the arguments in place of the parameters
+        e = self._helper_body(n)
+        if e is not None and self._helper_depth < 4:
+            self._helper_depth += 1
+            try:
+                return self.ev(e)
+            finally:
+                self._helper_depth -= 1
+        # any other call: the typing does not know what it computes (it is NOT a constant)
+        return U()
+
+    def _helper_body(self, n: ast.Call) -> ast.expr | None:
+        import copy
+
+        from .core import inline_locals, strip_docstring
+
+        if not isinstance(n.func, ast.Name) or any(isinstance(x, ast.Starred) for x in n.args) or any(k.arg is None for k in n.keywords):
+            return None
+        g = self.f.module.functions.get(n.func.id)
+        if g is None or g is self.f or n.func.id in self.env:
+            return None
+        a = g.node.args
+        if a.vararg or a.kwarg or a.kwonlyargs or g.node.decorator_list:
+            return None
+        body = strip_docstring(g.node.body)
+        if not body or not isinstance(body[-1], ast.Return) or body[-1].value is None:
+            return None
+        for st in body[:-1]:
+            if not (isinstance(st, ast.Assign) and len(st.targets) == 1 and isinstance(st.targets[0], ast.Name)) and not (isinstance(st, ast.AnnAssign) and isinstance(st.target, ast.Name) and st.value is not None):
+                return None
+        params = [x.arg for x in a.posonlyargs + a.args]
+        if len(n.args) > len(params):
+            return None
+        bound: dict[str, ast.expr] = dict(zip(params, n.args))
+        for k in n.keywords:
+            if k.arg not in params or k.arg in bound:
+                return None
+            bound[k.arg] = k.value
+        defaults = dict(zip(params[len(params) - len(a.defaults):], a.defaults))
+        for p_ in params:
+            if p_ not in bound:
+                if p_ not in defaults:
+                    return None
+                bound[p_] = defaults[p_]
+        try:
+            e = inline_locals(g.node, body[-1].value)
+        except Exception:  # noqa
+            return None
+        # every local of the helper must have been resolved; the remaining names are parameters or module-level names
+        local_names = {t.id for st in body[:-1] for t in ([st.targets[0]] if isinstance(st, ast.Assign) else [st.target])}
+        if any(isinstance(x, ast.Name) and x.id in local_names for x in ast.walk(e)):
+            return None
+        if any(isinstance(x, (ast.Lambda, ast.ListComp, ast.DictComp, ast.SetComp, ast.GeneratorExp)) for x in ast.walk(e)):
+            return None
+        # a module-level name read by the helper must not be mistaken for a local or a parameter of the caller
+        callees = {id(x.func) for x in ast.walk(e) if isinstance(x, ast.Call)}
+        mine = set(self.env) | set(self.f.params())
+        if any(isinstance(x, ast.Name) and id(x) not in callees and x.id not in bound and x.id in mine for x in ast.walk(e)):
+            return None
+
+        class Sub(ast.NodeTransformer):
+            def visit_Name(self, node):
+                if isinstance(node.ctx, ast.Load) and node.id in bound:
+                    return copy.deepcopy(bound[node.id])
+                return node
+
+        return ast.fix_missing_locations(Sub().visit(copy.deepcopy(e)))
 
     # ---- statements
     def run(self, stmts) -> None:
@@ -303,7 +600,7 @@ class Interp:
         if v is None:
             return
         src = self._loops[-1] if self._loops else ''
-        self.bindings.setdefault(name, []).append(Binding(st.lineno, src, v, unparse(st)[:200], tuple(self._loops)))
+        self.bindings.setdefault(name, []).append(Binding(st.lineno, src, v, unparse(st)[:200], tuple(self._loops), accumulates=isinstance(st, (ast.AugAssign, ast.Expr))))
         old = self.env.get(name)
         try:
             self.env[name] = v if old is None else join([old, v], f'line {st.lineno}: entries of {name}')
@@ -330,6 +627,11 @@ class Interp:
                     try:
                         self._bind_target(st.value.generators[0].target, st.value.generators[0].iter)
                         v = self.ev(st.value.value if isinstance(st.value, ast.DictComp) else st.value.elt)
+                        if st.value.generators[0].ifs or len(st.value.generators) != 1:
+                            v = U()
+                        if isinstance(st.value, ast.ListComp):
+                            self.comp_values[id(st.value)] = v
+                            self.comp_values[(st.value.lineno, st.value.col_offset, unparse(st.value))] = v
                         self.bind(t.id, v, st)
                     finally:
                         self._loops.pop()
